@@ -850,6 +850,14 @@ impl Cw3Model {
             false
         };
         let mut wk = w.clone();
+        // recoverability is judged modulo solvency of the shared pool: an executed proposal may have
+        // spent the multisig's funds (its own decision, not a refund defect), so the probe tops the
+        // multisig up to the deposit amount before trying
+        if let Dep::Native { amount, .. } = cfg.deposit {
+            if wk.balance(&ms(), DENOM) < amount {
+                wk.set_balance(&ms(), DENOM, amount);
+            }
+        }
         for _k in 0..=4 {
             if balance(&wk) > before || finishers(&wk) {
                 return true;
